@@ -211,9 +211,22 @@ package dagsync
 //@   ensures old(handlersSyncers(s)) ==> hOK(result) && handlersSyncers(s)
 //@   ensures subOK(s)
 
+// ASSUMED (data-structure invariant of the sync.Map, whose only writer is setLatestSync): it holds cid.Cid
+// values only.
+//@ func (*latestSyncHandler).getLatestSync
+//@   property C01 C04
+//@   requires h != nil
+//@   readonly
+//@   at call Load: after assume result1 ==> typeis(result0, "cid.Cid")
+//@   ensures !result1 ==> result0 == cid.Undef
+
+// The latest synced link is a CID link to a defined CID or nothing; looking it up may record what the
+// caller-supplied last-known-sync function answered.
 //@ func (*Subscriber).GetLatestSync
-//@   nobody
-//@   pure
+//@   property C01 C04
+//@   requires s != nil
+//@   modifies s.latestSyncHandler
+//@   ensures result != nil ==> typeis(result, "cidlink.Link") && as(result, "cidlink.Link").Cid != cid.Undef
 
 //@ func (*segmentedSync).reset
 //@   property C01 C04
@@ -279,7 +292,6 @@ package dagsync
 //@   at call handle: assert arg6 == ite(opts.segDepthLimit != 0, opts.segDepthLimit, s.segDepthLimit)
 //@   at call handle: assert ite(stopLnk != nil, str(arg7.str) == payload(stopLnk) && arg7 != nextCid, str(arg7.str) == str(""))
 //@   at call handle: assert ite(opts.headAdCid != cid.Undef, nextCid == opts.headAdCid && !headQueried, headQueried)
-//@   at call GetLatestSync: after assume result != nil ==> typeis(result, "cidlink.Link")
 //@   assumes str(cid.Undef.str) == str("")
 //@   ensures-local old(s.expSyncClosed) ==> result1 != nil && count("wg.add:expSyncWG") == 0 && count("call:handle") == 0
 //@   ensures-local !old(s.expSyncClosed) ==> count("wg.add:expSyncWG") == 1 && count("wg.done:expSyncWG") == 1
@@ -321,7 +333,6 @@ package dagsync
 //@   at call Swap: after assume result != nil
 //@   at call GetLatestSync: assert arg1 == h.peerID
 //@   at call GetLatestSync: after ghost latest := result
-//@   at call GetLatestSync: after assume result != nil ==> typeis(result, "cidlink.Link")
 //@   at call recursionLimit: assert arg0 == h.subscriber.firstSyncDepth
 //@   at call recursionLimit: after ghost rlFirst := result
 //@   at call ExploreRecursiveWithStopNode: assert arg0 == ite(latest == nil && h.subscriber.firstSyncDepth != 0, rlFirst, h.subscriber.adsDepthLimit) && arg1 == h.subscriber.adsSelectorSeq && arg2 == latest
